@@ -398,7 +398,11 @@ class GitStore(Store):
                 self._uid_to_fname[uid] = (name, etag)
         for name in removed:
             (unused_etag, uid) = self._fname_to_uid[name]
-            if uid is not None:
+            if (
+                uid is not None
+                and self._uid_to_fname.get(uid, (None,))[0] == name
+            ):
+                # (the UID may have moved to another item in the meantime)
                 del self._uid_to_fname[uid]
             del self._fname_to_uid[name]
 
